@@ -1248,6 +1248,18 @@ class Interp:
         return self._comp(n, env, 'set')
 
     def e_DictComp(self, n, env):
+        if len(n.generators) == 1 and self.reg and self.reg.comprehension_hooks:
+            it = self.eval(n.generators[0].iter, env)
+            try:
+                items = self.iter_concrete(it, n.generators[0].iter)
+            except Unsupported:
+                items = None
+            if items is None:
+                r = self.reg.comprehension(self, n, env, self.as_view(it, n.generators[0].iter), 'dict')
+                if r is not None:
+                    return r
+                self.unsupported(n, 'dict comprehension over a symbolic sequence')
+            return self._comp_concrete(n, env, 'dict', items)
         return self._comp_concrete(n, env, 'dict')
 
     # ------------------------------------------------------------------ calls
